@@ -261,6 +261,10 @@ func (e *Enc) evalIdent(name string, ctx *SpecCtx) (SV, error) {
 	if v, ok := ctx.bound[name]; ok {
 		return v, nil
 	}
+	lst := ctx.localSt
+	if lst == nil {
+		lst = ctx.cur
+	}
 	if name == "result" && len(ctx.results) >= 1 {
 		r := ctx.results[0]
 		return SV{T: r.T, Sort: r.S, Typ: r.Typ}, nil
@@ -289,6 +293,17 @@ func (e *Enc) evalIdent(name string, ctx *SpecCtx) (SV, error) {
 				return SV{T: r.T, Sort: r.S, Typ: r.Typ}, nil
 			}
 		}
+	}
+	if name == "$count" && ctx.fr != nil && ctx.loop != nil {
+		// number of keys the loop's map range has produced so far
+		for _, ins := range ctx.loop.head.Instrs {
+			if nx, ok := ins.(*ssa.Next); ok {
+				if it := ctx.fr.regs[nx.Iter].It; it != nil && it.count != "" {
+					return SV{T: e.get(lst, e.comps[it.count]), Sort: "Int"}, nil
+				}
+			}
+		}
+		return SV{}, fmt.Errorf("$count: loop is not a map range")
 	}
 	if name == "$start" && ctx.fr != nil && ctx.loop != nil {
 		// key set of the ranged map when the loop's range statement started
@@ -350,10 +365,6 @@ func (e *Enc) evalIdent(name string, ctx *SpecCtx) (SV, error) {
 		c := e.comps[best]
 		return SV{T: e.get(ctx.cur, c), Sort: c.Sort}, nil
 	}
-	lst := ctx.localSt
-	if lst == nil {
-		lst = ctx.cur
-	}
 	if ctx.locals && ctx.fr != nil {
 		if sv, ok := e.lookupLocal(ctx.fr, name, lst); ok {
 			return sv, nil
@@ -387,6 +398,15 @@ func (e *Enc) evalIdent(name string, ctx *SpecCtx) (SV, error) {
 // lookupLocal resolves a source variable name to its current value: the local Alloc with that
 // comment. name#k selects the k-th (1-based) alloc of that name in instruction order.
 func (e *Enc) lookupLocal(fr *Frame, name string, st *St) (SV, bool) {
+	for f := fr; f != nil; f = f.caller {
+		if sv, ok := e.lookupLocal1(f, name, st); ok {
+			return sv, true
+		}
+	}
+	return SV{}, false
+}
+
+func (e *Enc) lookupLocal1(fr *Frame, name string, st *St) (SV, bool) {
 	want := 0
 	base := name
 	if i := strings.Index(name, "#"); i >= 0 {
@@ -422,11 +442,17 @@ func (e *Enc) lookupLocal(fr *Frame, name string, st *St) (SV, bool) {
 		}
 		a = cands[want-1]
 	} else {
-		// prefer an alloc that has been executed (has a register) – last one wins
+		// prefer an alloc that has been executed (has a register) and whose block dominates the
+		// point of evaluation (same-named variables of sibling scopes are not visible) – the last
+		// such alloc wins (innermost scope)
 		for _, c := range cands {
-			if _, ok := fr.regs[c]; ok {
-				a = c
+			if _, ok := fr.regs[c]; !ok {
+				continue
 			}
+			if fr.curBlock != nil && !fr.evalAtExit && c.Block() != fr.curBlock && !c.Block().Dominates(fr.curBlock) {
+				continue
+			}
+			a = c
 		}
 		if a == nil {
 			return SV{}, false
@@ -922,7 +948,7 @@ func (e *Enc) evalCall(n *SCall, ctx *SpecCtx) (SV, error) {
 			c = e.callsComp(e.resolveCalleeName(name))
 		}
 		return SV{T: e.get(ctx.cur, c), Sort: "Int"}, nil
-	case "lastret", "lastarg":
+	case "lastret", "lastarg", "firstret":
 		// lastret(f[, i]) / lastarg(f, i): value returned by / passed to the most recent call of f
 		name := e.resolveCalleeName(n.Args[0].String())
 		idx := 0
@@ -937,7 +963,7 @@ func (e *Enc) evalCall(n *SCall, ctx *SpecCtx) (SV, error) {
 			// never called here: the ghost is an arbitrary value of the right sort, if we can tell it
 			if fn := e.w.Funcs[name]; fn != nil {
 				var t types.Type
-				if n.Fn == "lastret" && idx < fn.Signature.Results().Len() {
+				if (n.Fn == "lastret" || n.Fn == "firstret") && idx < fn.Signature.Results().Len() {
 					t = fn.Signature.Results().At(idx).Type()
 				} else if n.Fn == "lastarg" && idx < len(fn.Params) {
 					t = fn.Params[idx].Type()
@@ -969,7 +995,7 @@ func (e *Enc) evalCall(n *SCall, ctx *SpecCtx) (SV, error) {
 			}
 		}
 		if fn := e.w.Funcs[name]; fn != nil {
-			if n.Fn == "lastret" && idx < fn.Signature.Results().Len() {
+			if (n.Fn == "lastret" || n.Fn == "firstret") && idx < fn.Signature.Results().Len() {
 				typ = fn.Signature.Results().At(idx).Type()
 			} else if n.Fn == "lastarg" && idx < len(fn.Params) {
 				typ = fn.Params[idx].Type()
@@ -1227,8 +1253,8 @@ func (e *Enc) applySpecFn(sf *SpecFn, n *SCall, ctx *SpecCtx) (SV, error) {
 	c2.bound = map[string]SV{}
 	c2.params = map[string]SV{}
 	c2.results = nil
-	c2.locals = false
-	c2.fr = nil
+	// macro semantics: the body may mention local variables of the function whose contract
+	// uses the spec function (parameters of the spec function shadow them)
 	c2.pkg = sf.Pkg
 	c2.pos = token.NoPos
 	for i, p := range sf.Params {
